@@ -132,11 +132,15 @@ func Monitors(o Outcome) []Finding {
 	}
 	// a subscriber never receives a value whose Broadcast returned before its Subscribe was called
 	scallPos := map[int]int{}
-	n := 0
 	for i, e := range tr {
 		if e.K == "scall" {
-			scallPos[n] = i
-			n++
+			n := e.V
+			if n < 1 {
+				n = 1
+			}
+			for k := 0; k < n; k++ {
+				scallPos[e.A+k] = i
+			}
 		}
 	}
 	for h, seq := range recv {
